@@ -9,6 +9,12 @@ def cases(tier, seed):
     n = 2500 if tier == 'quick' else 25000
     for i in range(n):
         yield {'kind': 'pda', 'P': P.to_json(P.random_pda(rng))}
+    # states, stack symbols (and input symbols) sharing raw values: 0 / 1 / 'A' name a state and a stack symbol at the same time
+    rng3 = random.Random(seed * 6151 + 3)
+    for i in range(300 if tier == 'quick' else 3000):
+        X = P.random_pda(rng3, reserved=0.0); vals = rng3.choice([[0, 1, 2], ['A', 'B', 'Z'], [1, 'a', 'Z']])
+        rs = dict(zip(['q', 'r', 'p'], vals)); rk = dict(zip(['Z', 'A', 'B'], vals))
+        yield {'kind': 'pda', 'P': P.to_json(P.mk(rs[X[0]], rk[X[1]], [rs[f] for f in X[2]], [(rs[p_], a_, rk[x_], rs[q_], tuple(rk[y_] for y_ in push)) for p_, a_, x_, q_, push in X[3]]))}
     for g, origin in G.grammars(tier, seed, n_random=600, exhaustive_prods=2):
         if all(isinstance(s[1], str) for h, b in g[1] for s in (h,) + b):      # to_pda stringifies symbol values: string symbols only
             yield {'kind': 'cfg', 'G': C.to_json(g)}
